@@ -743,3 +743,7 @@ M('rolllog-D68-shape-bound-strict', ['C13', 'C14'], RL, "(m := re_logpath.match(
 M('videoout-D70-shape-helper-logger-loud', ['C15'], VO, "self.stfu               = lambda: (writegear.logger.setLevel(logging.ERROR), helper.logger.setLevel(logging.ERROR))", "self.stfu               = lambda: (writegear.logger.setLevel(logging.ERROR),)", ['C15.R7'])
 M('videoout-writer-constructed-loud', ['C15'], VO, "        self.stfu()\n        self.writer = self.WriteGear(", "        self.writer = self.WriteGear(", ['C15.R7'])
 M('run-D71-shape-policy-lookup-after-ctor', ['C18'], F, "            filter = cls(config, stop_evt, obey_exit)  # will call .start_logging()\n           \n            try:\n", "            filter = cls(config, stop_evt, obey_exit)  # will call .start_logging()\n           \n            try:\n                prop_exit = PROP_EXIT_FLAGS[prop_exit] if isinstance(prop_exit, str) else prop_exit\n", ['C18.R3'])
+M('sweep-lineage-histogram-test-negated', ['C16'], LN, "            if k.endswith('_buckets') or k.endswith('_counts'):", "            if not (k.endswith('_buckets') or k.endswith('_counts')):", ['C16.R7'])
+M('sweep-lineage-histogram-test-and', ['C16'], LN, "            if k.endswith('_buckets') or k.endswith('_counts'):", "            if k.endswith('_buckets') and k.endswith('_counts'):", ['C16.R7'])
+M('sweep-lineage-histogram-elements-negated', ['C16'], LN, "[float(x) if isinstance(x, (int, float)) else str(x) for x in v]", "[float(x) if not isinstance(x, (int, float)) else str(x) for x in v]", ['C16.R7'])
+M('sweep-lineage-reserved-names-not-in', ['C18'], LN, 'iskeyword(k) or k in ("schemaURL", "type"):', 'iskeyword(k) or k not in ("schemaURL", "type"):', ['C18.R6'])
